@@ -389,6 +389,15 @@ func registerIOModels() {
 			c.assume(st, lt("0", r.Typ))
 			return r
 		}}
+	libModels["strings.Split"] = &libModel{
+		desc: "strings.Split(s, sep) with a non-empty separator returns at least one element (a fresh slice; the elements are unconstrained)",
+		apply: func(c *FnCtx, st *State, in ssa.Instruction, cc *ssa.CallCommon, args []Val) Val {
+			r := c.freshVal(st, cc.Signature().Results().At(0).Type(), "split").(VSlice)
+			if sep, ok := args[1].(VStr); ok {
+				c.assume(st, implies(lt("0", sep.Len), le("1", r.Len)))
+			}
+			return r
+		}}
 	libModels["rand.Intn"] = &libModel{
 		desc: "rand.Intn(n) requires n > 0 (it panics otherwise) and returns 0 <= r < n",
 		apply: func(c *FnCtx, st *State, in ssa.Instruction, cc *ssa.CallCommon, args []Val) Val {
